@@ -23,6 +23,7 @@ from aioesphomeapi import model as M
 from aioesphomeapi.core import MESSAGE_TYPE_TO_PROTO
 from google.protobuf.descriptor import FieldDescriptor as FD
 
+import common
 from common import Check, run_driver_parallel
 import live
 
@@ -392,6 +393,64 @@ def run(ck: Check):
         lines.append(line.strip())
         impl.append([obs.strip()])
         metas.append(("execute_service", line, apiv))
+    # the version that decides the encoding is the one negotiated by the session the command is sent on: one client, a
+    # session at version A that ends (device hangs up / EOF / reset / local disconnect), a second session at version B
+    import simnet
+    dist["cross_session_calls"] = 0
+    CROSS = [((1, 0), (1, 9)), ((1, 9), (1, 0)), ((1, 4), (1, 5)), ((1, 5), (1, 4)), ((1, 10), (0, 9)), ((1, 2), (1, 3)), ((1, 3), (1, 2))]
+    ENDS = ["peer", "eof", "reset", "disconnect", "force"]
+    for ci, (va, vb) in enumerate(CROSS):
+        for ei, end in enumerate(ENDS):
+            net, client, conn, stops = simnet.established(api=va)
+            loop = net.loop
+            try:
+                _ = client.api_version          # (the application looks at the version of the first session)
+                client.cover_command(key=1, position=0.5)
+                if end == "peer":
+                    net.send(pb.DisconnectRequest())
+                elif end == "eof":
+                    net.eof()
+                elif end == "reset":
+                    net.reset(OSError(104, "reset"))
+                else:
+                    simnet.spawn(loop, client.disconnect(force=(end == "force")), "disc")
+                    loop.run_idle()
+                    net.send(pb.DisconnectResponse())
+                loop.run_idle()
+
+                async def on_stop2(expected):
+                    pass
+
+                o = simnet.spawn(loop, client.connect(on_stop=on_stop2, login=False), "connect2")
+                loop.run_idle()
+                net.send(simnet.hello_response(vb[0], vb[1]))
+                loop.run_idle()
+                if o.cls() != "ok":
+                    raise common.LibraryMisbehaved("session-not-established", f"a second session of the same client (first ended by {end}) could "
+                                                   f"not be established: connect() ended as {o.cls()}")
+                calls = [("cover_command", "CoverCommandRequest", {"key": 3, "position": 0.25, "tilt": 0.75}),
+                         ("cover_command", "CoverCommandRequest", {"key": 3, "stop": True}),
+                         ("climate_command", "ClimateCommandRequest", {"key": 4, "preset": M.ClimatePreset.AWAY}),
+                         ("climate_command", "ClimateCommandRequest", {"key": 4, "preset": M.ClimatePreset.HOME, "target_temperature": 21.5})]
+                for method, mname, kwargs in calls:
+                    n0 = len(net.written())
+                    getattr(client, method)(**kwargs)
+                    wr = net.written()[n0:]
+                    dist["cross_session_calls"] += 1
+                    if len(wr) != 1:
+                        ck.violation(f"c15:frames:{method}", f"{method}({kwargs}) on the second session wrote {len(wr)} frames", {"method": method})
+                        continue
+                    m = MESSAGE_TYPE_TO_PROTO[wr[0][1]]()
+                    m.ParseFromString(wr[0][2])
+                    got, want = msg_fields(m), oracle(mname, kwargs, vb)
+                    if got != want:
+                        ck.violation(f"c15:version-of-another-session:{method}", f"{method}({ {k: str(v) for k, v in kwargs.items()} }) on a session "
+                                     f"that negotiated API {vb}, after an earlier session of the same client at API {va} (ended by {end}): request "
+                                     f"carries {got}, the supplied arguments prescribe {want}",
+                                     {"method": method, "kwargs": {k: str(v) for k, v in kwargs.items()}, "first_session_api": list(va),
+                                      "second_session_api": list(vb), "first_session_ended_by": end})
+            finally:
+                net.close()
     # ---- model vs implementation
     outs = run_driver_parallel([lines[i::16] for i in range(16)])
     compared = 0
